@@ -124,7 +124,9 @@ fn batch_roundtrip_and_cuts<const L0: usize, const L1: usize, const L2: usize>()
     mark_case();
     mark_nontrivial();
     let lens = [L0, L1, L2];
-    let bytes: [[u8; 3]; 3] = kani::any();
+    // flat on purpose: Kani 0.68 mis-models `&local_nested_array[i][..n]` (reads through the slice
+    // are nondeterministic, DESIGN B22); rows are bytes[3*i .. 3*i+3]
+    let bytes: [u8; 9] = kani::any();
     let start: u64 = kani::any();
     kani::assume(start < (1 << 62));
     let mut n = 0;
@@ -132,7 +134,7 @@ fn batch_roundtrip_and_cuts<const L0: usize, const L1: usize, const L2: usize>()
         n += 1;
     }
     let mut batch: Vec<u8> = Vec::new();
-    MultiRecord::serialize((0..n).map(|i| &bytes[i][..lens[i]]), start, &mut batch);
+    MultiRecord::serialize((0..n).map(|i| &bytes[3 * i..3 * i + lens[i]]), start, &mut batch);
     let mut expect_len = 0;
     let mut i = 0;
     while i < n {
@@ -159,7 +161,7 @@ fn batch_roundtrip_and_cuts<const L0: usize, const L1: usize, const L2: usize>()
                 match it.next() {
                     Some(Ok((p, payload))) => {
                         assert!(p == start + i as u64, "C05: batch positions are consecutive");
-                        assert!(same(payload, &bytes[i][..lens[i]]), "C07: batch payload bytes");
+                        assert!(same(payload, &bytes[3 * i..3 * i + lens[i]]), "C07: batch payload bytes");
                     }
                     Some(Err(e)) => {
                         std::mem::forget(e);
@@ -199,7 +201,7 @@ fn batch_roundtrip_and_cuts<const L0: usize, const L1: usize, const L2: usize>()
                 while i < k {
                     match it.next() {
                         Some(Ok((p, payload))) => {
-                            assert!(p == start + i as u64 && same(payload, &bytes[i][..lens[i]]), "C12: prefix items");
+                            assert!(p == start + i as u64 && same(payload, &bytes[3 * i..3 * i + lens[i]]), "C12: prefix items");
                         }
                         Some(Err(e)) => {
                             std::mem::forget(e);
@@ -278,7 +280,7 @@ macro_rules! rshard {
         #[kani::proof]
         #[kani::unwind($unwind)]
         #[kani::stub(core::str::from_utf8, from_utf8_stub)]
-        fn $name() {
+        pub(crate) fn $name() {
             $f::<$({ $arg }),*>()
         }
     };
@@ -288,7 +290,7 @@ macro_rules! rshard_mf {
         #[kani::proof]
         #[kani::unwind($unwind)]
         #[kani::stub(core::str::from_utf8, from_utf8_stub)]
-        fn $name() {
+        pub(crate) fn $name() {
             $f::<$({ $arg }),*>();
             must_fail_witness();
         }
